@@ -28,7 +28,7 @@ func init() {
 			"(same document, external fragment in same/parent/sibling/child directory, whole file in another directory whose object holds a relative ref, untyped x- extension) × chain length 1..2 × path spellings " +
 			"(x.json, ./x.json, ../d/x.json, d/../x.json, absolute, doubled slash) × root directory depth × entry point (file, data+path, data, http URI); shapes: diamond, self and mutual cycles per kind, " +
 			"callback/path-item cycles, pointer escapes (~0, ~1, ~01 with decoy siblings), dangling (component, file, nil field), wrong kind, scalar target, slash-less fragment, pure $ref cycle, '#', " +
-			"the #29 two-directory layout, kind clash; then a seeded random stream of 2..4-file layouts with random components whose child slots are inline values or references to random components by random spelling. " +
+			"the #29 two-directory layout, kind clash per slot (same document / document loaded through the reference), path-item chains (2..3 hops, across directories, cyclic, to a whole file, through a callback), '#/…' inside whole-file elements per kind, pointers through a header, 3-hop chains per kind; then a seeded random stream of 2..4-file layouts with random components whose child slots are inline values or references to random components by random spelling. " +
 			"A case is non-trivial when the driver reports at least one branch (it always reports the reference forms, kinds and classes present).",
 		Exhaustive: true,
 		Gen:        genC02,
@@ -959,6 +959,136 @@ func c02Shapes(emit func(hx.Case)) {
 		l.file(root)["definitions"] = jm{"S": jm{"type": "string", "description": "root's S"}}
 		l.raw("/r/b/h.json", jm{"description": "H", "schema": c02Ref("#/definitions/S", "r2"), "definitions": jm{"S": jm{"type": "integer", "description": "h's S"}}})
 		c02Put(l.file(root), "header", "H", c02Ref("../b/h.json", "r1"))
+		emit(l.toCase())
+	}
+	c02ShapesRound3(emit)
+}
+
+// shapes added when the model followed the repaired loader (a04fe6c, 9b25d89, f972c33, cbb0d05)
+func c02ShapesRound3(emit func(hx.Case)) {
+	root := "/r/a/root.json"
+	// (a) kind clash: a text in progress as kind P met again as kind C in a child slot of the target — in the same
+	//     document (the position is walked again: load error) and in a document loaded through that reference
+	//     (never walked again: F-C02-48), for every slot whose child kind differs from the parent kind
+	for si := range c02Slots {
+		s := c02Slots[si]
+		if s.parent == s.child {
+			continue
+		}
+		for _, ext := range []bool{false, true} {
+			l := newLayout("file", root)
+			tf, text := root, c02Ptr(s.parent, c02TopName(s.parent, "B"))
+			if ext {
+				tf = "/r/a/x.json"
+				text = "x.json" + text
+			}
+			b := c02Val(s.parent, "B")
+			c02Set2(b, s, c02Ref(text, "clash"))
+			c02Put(l.file(tf), s.parent, c02TopName(s.parent, "B"), b)
+			c02Put(l.file(root), s.parent, c02TopName(s.parent, "A"), c02Ref(text, "r1"))
+			emit(l.toCase())
+		}
+	}
+	// (b) path-item chains: lengths 2 and 3, hops inside one document and across directories, the last path item
+	//     holding a parameter given relative to ITS directory (with a decoy next to the first hop), chains that
+	//     close into a cycle, a chain that ends in a whole-file path item, a chain reached through a callback
+	for _, n := range []int{2, 3} {
+		for _, spread := range []bool{false, true} {
+			l := newLayout("file", root)
+			files := []string{root, root, root, root}
+			if spread {
+				files = []string{root, "/r/b/x.json", "/r/c/y.json", "/r/d/z.json"}
+			}
+			last := files[n]
+			pi := c02Val("pathItem", "end@"+last)
+			if spread {
+				side := path.Dir(last) + "/side.json"
+				c02Put(l.file(side), "parameter", "N", c02Val("parameter", "N@"+side))
+				c02Put(l.file(path.Dir(files[1])+"/side.json"), "parameter", "N", c02Val("parameter", "decoy"))
+				c02Set2(pi, c02Slots[17], c02Ref("side.json#/components/parameters/N", "leaf"))
+			}
+			c02Put(l.file(last), "pathItem", "/p"+strconv.Itoa(n), pi)
+			for i := n - 1; i >= 0; i-- {
+				text := c02Ptr("pathItem", "/p"+strconv.Itoa(i+1))
+				if files[i+1] != files[i] {
+					text = c02Spell(files[i], files[i+1], 0) + text
+				}
+				c02Put(l.file(files[i]), "pathItem", "/p"+strconv.Itoa(i), c02Ref(text, "h"+strconv.Itoa(i)))
+			}
+			emit(l.toCase())
+		}
+	}
+	{
+		l := newLayout("file", root) // a → b → a
+		c02Put(l.file(root), "pathItem", "/a", c02Ref("#/paths/~1b", "r1"))
+		c02Put(l.file(root), "pathItem", "/b", c02Ref("#/paths/~1a", "r2"))
+		emit(l.toCase())
+		l = newLayout("file", root) // a → b → b.json (whole file) whose parameter is relative to b.json
+		c02Put(l.file(root), "pathItem", "/a", c02Ref("#/paths/~1b", "r1"))
+		c02Put(l.file(root), "pathItem", "/b", c02Ref("../b/pi.json", "r2"))
+		pi := c02Val("pathItem", "whole")
+		c02Set2(pi, c02Slots[17], c02Ref("side.json#/components/parameters/N", "leaf"))
+		l.raw("/r/b/pi.json", pi)
+		c02Put(l.file("/r/b/side.json"), "parameter", "N", c02Val("parameter", "N@b"))
+		c02Put(l.file("/r/a/side.json"), "parameter", "N", c02Val("parameter", "decoy"))
+		emit(l.toCase())
+		l = newLayout("file", root) // a callback whose path item is a chain
+		cb := c02Val("callback", "cb")
+		c02Set2(cb, c02Slots[16], c02Ref("#/paths/~1b", "r1"))
+		c02Put(l.file(root), "callback", "CB", cb)
+		c02Put(l.file(root), "pathItem", "/b", c02Ref("../b/x.json#/paths/~1c", "r2"))
+		c02Put(l.file("/r/b/x.json"), "pathItem", "/c", c02Val("pathItem", "c"))
+		emit(l.toCase())
+	}
+	// (c) '#/…' inside a whole-file element, per kind with a schema slot: the referrer has / has not an object at
+	//     that pointer (F-C02-45: drilled into the referrer first; the raw re-read of the element file since f972c33)
+	for _, kind := range []string{"header", "parameter", "requestBody", "response", "schema"} {
+		for _, rootHas := range []bool{true, false} {
+			l := newLayout("file", root)
+			if rootHas {
+				l.file(root)["definitions"] = jm{"S": jm{"type": "string", "description": "root's S"}}
+			}
+			obj := c02Val(kind, "elem")
+			for si := range c02Slots {
+				if c02Slots[si].parent == kind && c02Slots[si].child == "schema" {
+					c02Set2(obj, c02Slots[si], c02Ref("#/definitions/S", "r2"))
+					break
+				}
+			}
+			obj["definitions"] = jm{"S": jm{"type": "integer", "description": "element's S"}}
+			l.raw("/r/b/e.json", obj)
+			c02Put(l.file(root), kind, "E", c02Ref("../b/e.json", "r1"))
+			emit(l.toCase())
+		}
+	}
+	// (d) pointers through a header (no typed drill-down: the raw re-read of the REFERENCED document), present and absent
+	for _, ext := range []bool{false, true} {
+		for _, present := range []bool{true, false} {
+			l := newLayout("file", root)
+			tf, pre := root, ""
+			if ext {
+				tf, pre = "/r/b/x.json", "../b/x.json"
+			}
+			h := jm{"description": "H"}
+			if present {
+				h["schema"] = jm{"type": "integer", "description": "H.schema@" + tf}
+			}
+			c02Put(l.file(tf), "header", "H", h)
+			if ext {
+				// the referring document has a header of the same name WITH a schema
+				c02Put(l.file(root), "header", "H", jm{"description": "root's H", "schema": jm{"type": "string", "description": "root's H.schema"}})
+			}
+			c02Put(l.file(root), "schema", "A", c02Ref(pre+"#/components/headers/H/schema", "r1"))
+			emit(l.toCase())
+		}
+	}
+	// (g) chains of length 3 for every kind, alternating internal and external hops
+	for _, kind := range c02Kinds {
+		l := newLayout("file", root)
+		c02Put(l.file("/r/c/y.json"), kind, c02TopName(kind, "V"), c02Val(kind, "V@y"))
+		c02Put(l.file("/r/b/x.json"), kind, c02TopName(kind, "M2"), c02Ref("../c/y.json"+c02Ptr(kind, c02TopName(kind, "V")), "m2"))
+		c02Put(l.file("/r/b/x.json"), kind, c02TopName(kind, "M1"), c02Ref(c02Ptr(kind, c02TopName(kind, "M2")), "m1"))
+		c02Put(l.file(root), kind, c02TopName(kind, "R"), c02Ref("../b/x.json"+c02Ptr(kind, c02TopName(kind, "M1")), "r1"))
 		emit(l.toCase())
 	}
 }
